@@ -30,7 +30,9 @@ EXTENDS Naturals, Sequences, TLC, FiniteSets, Json
 CONSTANTS MaxThreads
 Ids == {1, 2}
 \* spot: where the thread's ip lies; stk: whether the thread's own stack descriptor contains its stack pointer, or only another region of the memory list does
-Thr == [id : Ids, ctxOk : BOOLEAN, named : BOOLEAN, spot : {"mod", "unl", "unl2", "none"}, stk : {"own", "other"}]
+\* named: the thread-names stream has no entry for the thread / a readable one / one whose string cannot be read (which is skipped: it
+\* names nobody and does not affect the entries after it)
+Thr == [id : Ids, ctxOk : BOOLEAN, named : {"no", "yes", "bad"}, spot : {"mod", "unl", "unl2", "none"}, stk : {"own", "other"}]
 NoExc == [k |-> "none", tid |-> 0, hasCtx |-> FALSE, ctxOk |-> FALSE, code |-> "other", np |-> 0, info1 |-> "lo", addr |-> "lo", kind |-> 0, sp |-> "thread"]
 \* sp: where the exception context's stack pointer lies - in a thread's stack, in another region of the memory list, in no memory at all
 Exc(t, h, c, cd, n, i, a, kd, s) == [k |-> "some", tid |-> t, hasCtx |-> h, ctxOk |-> c, code |-> cd, np |-> n, info1 |-> i, addr |-> a, kind |-> kd, sp |-> s]
@@ -46,7 +48,7 @@ Platforms == {<<"windows", "x86">>, <<"windows", "amd64">>, <<"linux", "amd64">>
 VARIABLES threads, exc, bp, plat, misc, status, stamp
 vars == <<threads, exc, bp, plat, misc, status, stamp>>
 Init == threads = <<>> /\ exc = NoExc /\ bp = NoBp /\ plat = <<"windows", "x86">> /\ misc = "none" /\ status = "none" /\ stamp = "zero"
-AddThread == Len(threads) < MaxThreads /\ (Len(threads) = 0 \/ (exc \in ExcsA \cup {NoExc} /\ plat = <<"windows", "x86">> /\ misc = "none" /\ status = "none")) /\ \E t \in Thr : (t.stk = "other" => (t.named /\ t.spot = "mod")) /\ (Len(threads) >= 1 => (t.named /\ t.spot = "mod" /\ t.stk = "own")) /\ threads' = Append(threads, t) /\ UNCHANGED <<exc, bp, plat, misc, status, stamp>>
+AddThread == Len(threads) < MaxThreads /\ (Len(threads) = 0 \/ (exc \in ExcsA \cup {NoExc} /\ plat = <<"windows", "x86">> /\ misc = "none" /\ status = "none")) /\ \E t \in Thr : (t.stk = "other" => (t.named = "yes" /\ t.spot = "mod")) /\ (t.named = "bad" => (Len(threads) = 0 /\ t.spot = "mod" /\ t.stk = "own")) /\ (Len(threads) >= 1 => (t.named = "yes" /\ t.spot = "mod" /\ t.stk = "own")) /\ threads' = Append(threads, t) /\ UNCHANGED <<exc, bp, plat, misc, status, stamp>>
 \* to keep the space small the exception record varies fully only for one thread shape
 SetException == exc = NoExc /\ misc = "none" /\ status = "none" /\ \E e \in (IF Len(threads) <= 1 /\ bp = NoBp THEN Excs ELSE ExcsA) : exc' = e /\ UNCHANGED <<threads, bp, plat, misc, status, stamp>>
 SetBreakpad == bp = NoBp /\ exc \in ExcsA \cup {NoExc} /\ plat = <<"windows", "x86">> /\ \E b \in Bps : bp' = b /\ UNCHANGED <<threads, exc, plat, misc, status, stamp>>
@@ -87,7 +89,7 @@ Unl(i) == IF Src(i) # "thread" THEN {} ELSE CASE threads[i].spot = "unl" -> {"u1
 Caller(i) == IF Src(i) = "none" THEN "none" ELSE IF Src(i) = "thread" THEN (IF threads[i].stk = "own" THEN "thread_stack" ELSE "other_region")
              ELSE CASE exc.sp = "thread" -> "thread_stack" [] exc.sp = "other" -> "other_region" [] OTHER -> "none"
 Expected == [ caller |-> [i \in 1..Len(threads) |-> Caller(i)], infos |-> [i \in 1..Len(threads) |-> Info(i)], srcs |-> [i \in 1..Len(threads) |-> Src(i)],
-              ids |-> [i \in 1..Len(threads) |-> threads[i].id], named |-> [i \in 1..Len(threads) |-> \E j \in 1..Len(threads) : threads[j].id = threads[i].id /\ threads[j].named],     \* names are keyed by thread id
+              ids |-> [i \in 1..Len(threads) |-> threads[i].id], named |-> [i \in 1..Len(threads) |-> \E j \in 1..Len(threads) : threads[j].id = threads[i].id /\ threads[j].named = "yes"],     \* names are keyed by thread id
               unl |-> [i \in 1..Len(threads) |-> Unl(i)], req |-> ReqSet, addr |-> CrashAddr, reason |-> Reason, pid |-> Pid, ctime |-> CreateTime, time |-> stamp ]
 \* ---- design-level sanity ----
 ReqNotSkipped == \A i \in ReqSet : Info(i) # "skipped"
